@@ -42,6 +42,40 @@ class Node:
         self.addr = self.o.node_address
         self.role, self.level = role, level
 
+    def feed_seq(self, raws, pipes):
+        chip, o, s = self.chip, self.o, self.s
+        if chip.rx or not chip.listening_now():
+            chip.rx.clear()
+            o.listen = True
+            s.advance(300_000)
+        for raw, pipe in zip(raws, pipes):
+            r = chip.inject(pipe, raw)
+            if r[1] != "new":
+                raise RuntimeError("injection refused: %s" % (r,))
+        q0 = len(o.queue)
+        self.air.log.clear()
+        t0 = s.now
+        s.deadline = t0 + 3_000_000_000
+        exc = "none"
+        try:
+            for _ in range(4):
+                o.update()
+                if not chip.rx:
+                    break
+        except sim.WatchdogExpired:
+            exc = "Hang"
+        except Exception as e:  # noqa
+            exc = type(e).__name__
+            chip.rx.clear()
+        s.deadline = None
+        dt = (s.now - t0) // 1000
+        q1 = len(o.queue)
+        sent = [p["data"] for p in self.air.log]
+        while o.available():
+            o.read()
+        return dict(k="seq", role=self.role, level=self.level, addr=self.addr, raws=[list(r) for r in raws], exc=exc,
+                    queued=max(0, q1 - q0), ntx=len(sent), sent=sent, dt=int(dt), bound=1200000, cls="seq", typ=-2)
+
     def feed(self, raw, pipe):
         chip, o, s = self.chip, self.o, self.s
         if chip.rx or not chip.listening_now():      # a previous (already reported) failure left the node deaf or clogged
@@ -107,6 +141,17 @@ def work(args):
         v = nd.feed(bytes(raw), rng.choice([0, 1, 5]))
         v["cls"], v["typ"] = "raw", -1
         out.append(v)
+    if extra:
+        # sequences: every ordered pair (and sampled triples) of a small set of telling frames waiting together in the FIFO
+        me = nd.addr
+        H = lambda frm, to, typ, n=2: struct.pack("<HHHBB", frm, to, rng.randrange(65536), typ, 5) + bytes([5, 0, 1, 2][:n])
+        pool = [H(0o2, me, 0), H(0o2, 0o100, 196), H(0o2, 0o100, 198), H(0o2, 0o100, 195), H(0o2, 0o100, 194), H(0o2, me, 196),
+                H(0o2, me, 198), H(0o2, me, 197), H(0o7, me, 0), H(0o7, 0o100, 1), H(0o2, 0o60, 0), H(0xFFFF, me, 196),
+                H(0o7, me, 198), H(0o2, me, 148, 4), H(0o2, me, 150, 4), b"\x01\x02\x03", H(0o2, 0o3 if me != 0o3 else 0o4, 65)]
+        seqs = [(a, b) for a in pool for b in pool]
+        seqs += [tuple(rng.choice(pool) for _ in range(3)) for _ in range(60)]
+        for sq in seqs:
+            out.append(nd.feed_seq(list(sq), [rng.choice([1, 2, 5]) for _ in sq]))
     return out
 
 
@@ -150,7 +195,7 @@ def run(chk):
             vec += res
     chk.phase("inject")
     for v in vec:
-        chk.case((v.get("role"), v.get("level"), tuple(v.get("raw", [v.get("base")]))))
+        chk.case((v.get("role"), v.get("level"), tuple(v.get("raw", [v.get("base")])) if "raws" not in v else str(v["raws"])))
     chk.traces += len(vec)
     chk.sample({k: v for k, v in next(x for x in vec if x["k"] == "inj" and x["ntx"]).items()})
     verdicts, st = tlc.validate("TraceInject", "TraceInject", jsonable(vec), shard=4000, quiet=True, timeout=2400)
